@@ -37,7 +37,7 @@ def run(tier, wd):
     rep = core.Report(PROP, tier, "model_checking")
     binpath = core.build_harness()
     q = tier == "quick"
-    res = core.run_tlc(wd, "MCDecl", cfg="MCDecl" if q else "MCDeclDeep", timeout=3000, extra=[] if q else ["-maxSetSize", "10000000"])
+    res = core.run_tlc(wd, "MCDecl", cfg="MCDecl" if q else "MCDeclDeep", timeout=3000)
     core.tlc_must_finish(res, "Decl")
     rep.add_tlc(res)
     cases = [json.loads(p) for p in sorted(set(res.printed("DECL")))]
